@@ -593,6 +593,28 @@ mon.write(v)
 v = float(a)
 mon.write(v / 2)
 ''',
+    "comp_var_shadows_float": '''
+step = 0.25
+ramp = [step * 4 for step in range(4)]
+total = step + 1
+half = step * 2
+mon.write(total)
+mon.write(half)
+mon.write(ramp[2])
+''',
+    "comp_var_shadows_str": '''
+tag = "v"
+idx = [tag * 2 for tag in range(3)]
+label = tag + str(a)
+mon.write(label)
+mon.write(idx[1])
+''',
+    "comp_then_new_float": '''
+sq = [k * k for k in range(3)]
+k = a / 4.0
+m = k + 1
+mon.write(m)
+''',
     "hoist_then_use": '''
 if a > 0:
     gain = 1.5
@@ -652,6 +674,33 @@ def avg(p, q):
     s = p + q
     return s / 2
 ''', 'mon.write(avg(a, b))\n'),
+    "param_rebound_float": ('''
+def settle(reading):
+    reading = reading * 0.5 + 0.25
+    return reading
+''', 'mon.write(settle(3))\nmon.write(settle(a))\n'),
+    "param_aug_float": ('''
+def nudge(p):
+    p += 0.5
+    return p
+''', 'mon.write(nudge(a))\n'),
+    "param_rebound_in_branch": ('''
+def halve(p):
+    if p > 10:
+        p = p / 2.0
+    return p
+''', 'mon.write(halve(a))\n'),
+    "param_copy_rebound": ('''
+def soften(p):
+    q = p
+    q = q * 0.5
+    return q
+''', 'mon.write(soften(a))\n'),
+    "param_rebound_two_params": ('''
+def mix(p, q):
+    q = q * 0.25
+    return p + q
+''', 'mon.write(mix(a, b))\nmon.write(mix(1, 2))\n'),
     "hoist_in_fn": ('''
 def boost(v):
     if v > 0:
@@ -676,6 +725,15 @@ def types_family(tier="quick") -> List[Tuple[str, str]]:
             out.append((f"types/{name}/function", fn_src))
     for name, (defs, use) in TYPE_FUNCS.items():
         out.append((f"types/{name}/loop", _loop(READ_AB + _ind(use), defs.strip("\n") + "\n")))
+        # the same calls with their results routed through variables (call-site typing is per call shape)
+        lines = use.strip("\n").split("\n")
+        if all(ln.startswith("mon.write(") and ln.endswith(")") for ln in lines):
+            assigns = "".join(f"r{i} = {ln[len('mon.write('):-1]}\n" for i, ln in enumerate(lines))
+            writes = "".join(f"mon.write(r{i})\n" for i in range(len(lines)))
+            out.append((f"types/{name}/assign_loop", _loop(READ_AB + _ind(assigns + writes), defs.strip("\n") + "\n")))
+            setup_src = HEADER + defs.strip("\n") + "\n" + 'a = analog_read("A0") - 512\nb = analog_read("A1") - 512\n' \
+                + assigns + writes + "while True:\n" + _ind(writes)
+            out.append((f"types/{name}/assign_setup", setup_src))
     # globals assigned with different types in setup vs loop
     out.append(("types/global_int_loop_float", _loop(READ_AB + "    g = a / 4.0\n    mon.write(g)\n", "g = 0\n")))
     out.append(("types/global_float_loop_int", _loop(READ_AB + "    mon.write(g)\n    g = a\n", "g = 0.5\n")))
